@@ -19,6 +19,7 @@ def fr(x):
 def gen_net(rnd):
     n = rnd.randint(1, 12)
     kind = rnd.choice(['er', 'er', 'hub', 'iso', 'loop', 'regular'])
+    gtype = rnd.choice(['graph', 'graph', 'graph', 'multi', 'di'])          # also multigraphs with repeated edges and directed graphs (degree = in + out)
     if rnd.random() < 0.04:
         # a single hub whose degree exceeds the 301 terms evaluate() adds up when no largest term is given
         n = rnd.choice([302, 303, 350, 420]); kind = 'hub'
@@ -27,7 +28,8 @@ def gen_net(rnd):
     elif kind == 'iso': es = [[0, 1]] if n > 1 else []
     elif kind == 'loop': es = [[a, a] for a in range(n) if rnd.random() < 0.3] + [[a, (a + 1) % n] for a in range(n) if n > 2]
     else: es = [[a, (a + 1) % n] for a in range(n)] if n > 2 else []
-    spec = dict(kind='net', n=n, edges=es)
+    spec = dict(kind='net', n=n, edges=es, gtype=gtype if n <= 12 else 'graph')
+    if spec['gtype'] == 'multi' and es: spec['edges'] = es + [rnd.choice(es) for _ in range(rnd.randint(1, 3))]
     if rnd.random() < 0.4 and 3 <= n <= 12:
         # the same graph object had other edges before (same node count, usually the same edge count) and was read then
         prior = []
@@ -42,7 +44,7 @@ def gen_net(rnd):
 
 def run_net(spec):
     n = spec['n']
-    g = nx.Graph(); g.add_nodes_from(range(n))
+    g = {'graph': nx.Graph, 'multi': nx.MultiGraph, 'di': nx.DiGraph}[spec.get('gtype', 'graph')](); g.add_nodes_from(range(n))
     for es in spec.get('prior', []):
         g.add_edges_from([tuple(e) for e in es])
         try:
@@ -85,7 +87,7 @@ def run_net(spec):
 
 def gen_analytic(rnd):
     fam = rnd.choice(['er', 'er', 'er', 'plc'])
-    o = rnd.choice([1, 2, 3]); c = rnd.choice([0.5, 3.0, 0.25])
+    o = rnd.choice([1, 2, 3]); c = rnd.choice([0.5, 3.0, 0.25, -1.0, -2.5])
     if fam == 'er' and rnd.random() < 0.3:
         # derivatives of high order (index + order up to 60), at mean degrees where the coefficients involved are not negligible
         o = rnd.choice([11, 16, 21, 25, 30, 40])
